@@ -61,6 +61,9 @@ type Env struct {
 	cur    *RecBlock
 
 	nImports int
+	// MidBlockReadPct: share of blocks in which the committed state is read (all getters, all query
+	// endpoints) between EndBlock and Commit
+	MidBlockReadPct int
 	// GovRollbackPct: share of single-message governance proposals that get a failing second message
 	GovRollbackPct int
 	// GovExecBlockTxs: delivered (once) in the block whose EndBlock executes the next proposal
@@ -78,7 +81,7 @@ type RecBlock struct {
 func NewEnv(c *fw.Ctx, o lab.Options) *Env {
 	o.Home = c.Scratch + "/home"
 	l := lab.New(dbm.NewMemDB(), o)
-	return &Env{C: c, L: l, R: c.Rng, GovRollbackPct: 15}
+	return &Env{C: c, L: l, R: c.Rng, GovRollbackPct: 15, MidBlockReadPct: 12}
 }
 
 func (e *Env) tracef(format string, a ...interface{}) {
@@ -207,6 +210,28 @@ func (e *Env) EndBlock() []byte {
 		if m.AfterEnd != nil {
 			m.AfterEnd(e, pre, post, er)
 		}
+	}
+	// A node serves client queries from the last COMMITTED state while the next block is being
+	// executed. In a share of the blocks the whole read surface is exercised at exactly that moment
+	// (after EndBlock, before Commit): every keeper getter through Observe on the committed-state
+	// context - which must still show the previous boundary - and every query endpoint through
+	// app.Query. Reads must not leave anything behind that changes later answers or results.
+	if e.MidBlockReadPct > 0 && e.R.Chance(e.MidBlockReadPct) {
+		func() {
+			defer func() {
+				if p := recover(); p != nil {
+					e.C.Count("mid_block_read_panics", 1)
+				}
+			}()
+			mid := e.L.Observe(e.L.QueryCtx())
+			if pre != nil && mid.Height == pre.Height && (mid.NextPO != pre.NextPO || mid.NextWrk != pre.NextWrk || mid.NextBeacon != pre.NextBeacon || len(mid.Streams) != len(pre.Streams) || len(mid.Whitelist) != len(pre.Whitelist) || !mid.TotalLocked.IsEqual(pre.TotalLocked) || mid.EntParams.String() != pre.EntParams.String()) {
+				e.C.Violate("committed-state-read-not-isolated", "mid-block", "a read of the committed state (height %d) while block %d was executing does not show the state of the last boundary: next ids %d/%d/%d vs %d/%d/%d, streams %d vs %d, whitelist %d vs %d, total locked %s vs %s", mid.Height, e.L.Height, mid.NextPO, mid.NextWrk, mid.NextBeacon, pre.NextPO, pre.NextWrk, pre.NextBeacon, len(mid.Streams), len(pre.Streams), len(mid.Whitelist), len(pre.Whitelist), mid.TotalLocked, pre.TotalLocked)
+			}
+			for _, q := range c20Queries(e.L) {
+				e.L.App.Query(abci.RequestQuery{Path: q.path, Data: q.data})
+			}
+			e.C.Count("mid_block_read_sweeps", 1)
+		}()
 	}
 	var hash []byte
 	protect("Commit", &e.Halted, func() { hash = e.L.Commit() })
